@@ -250,3 +250,11 @@ Definition ba_extract_dtype (d : dtype) (f : fill_kind) : dtype :=
   | FillFloat, _ => DF 64
   | _, _ => d
   end.
+
+(** extract(fill_value, dtype=...): an explicitly requested dtype is used as it is, whatever
+    the fill value; only without one does a floating fill value upgrade the working dtype *)
+Definition ba_extract_dtype_opt (d : dtype) (req : option dtype) (f : fill_kind) : dtype :=
+  match req with
+  | Some r => r
+  | None => ba_extract_dtype d f
+  end.
